@@ -358,3 +358,19 @@ impl<S: BarrierSemantics> Barrier<S::VM> for SATBBarrier<S> {
         unimplemented!()
     }
 }
+
+/// Forwarders for the external verification harnesses (see `crate::verif_hooks`). One call each, no logic.
+#[cfg(any(kani, mmtk_verif))]
+pub mod verif_hooks {
+    use super::*;
+    pub use super::{BarrierSemantics, ObjectBarrier};
+    pub fn object_is_unlogged<S: BarrierSemantics>(
+        b: &ObjectBarrier<S>,
+        object: ObjectReference,
+    ) -> bool {
+        b.object_is_unlogged(object)
+    }
+    pub fn log_object<S: BarrierSemantics>(b: &ObjectBarrier<S>, object: ObjectReference) -> bool {
+        b.log_object(object)
+    }
+}
